@@ -132,15 +132,18 @@ theorem exists_of_sumT_pos {α} (f : α → Nat) (l : List α) (h : 1 ≤ sumT f
     · obtain ⟨a, ha, h1⟩ := ih (by omega)
       exact ⟨a, by simp [ha], h1⟩
 
-/-- is the goroutine on the short straight path that ends with the send on `err`? -/
-def signalling (t : Thread) : Prop :=
-  t.st = .eFailInc ∨ t.st = .sFailInc ∨ t.st = .eSend ∨ t.st = .sLoad ∨ ∃ e, t.st = .sSend e
+/-- the goroutine has won `rpcsFailed.Inc() == 1` and is on the straight path (load,) send -/
+def sending (t : Thread) : Prop := t.st = .eSend ∨ t.st = .sLoad ∨ ∃ e, t.st = .sSend e
+
+/-- the goroutine is about to execute `rpcsFailed.Inc()` -/
+def claiming (t : Thread) : Prop := t.st = .eFailInc ∨ t.st = .sFailInc
 
 /-- as soon as one family's count exceeds the tolerance of a key (or its last replica has been
-counted), the signal has been sent or some goroutine is committed to sending it. -/
+counted): the signal has been sent, or the winner of `rpcsFailed.Inc() == 1` is on its way to send it,
+or nobody has incremented `rpcsFailed` yet and some goroutine is about to (and will then win). -/
 theorem early_failure' {s : St} (hi : Inv s) {i : Nat} {it : Item} (hit : s.items[i]? = some it)
     (h : it.maxFailures < it.failedClient ∨ it.maxFailures < it.failedServer ∨ it.remaining ≤ 0) :
-    s.nErr = 1 ∨ ∃ t ∈ s.thr, signalling t := by
+    s.nErr = 1 ∨ (∃ t ∈ s.thr, sending t) ∨ (s.failed = 0 ∧ ∃ t ∈ s.thr, claiming t) := by
   obtain ⟨a1, a2, a3, a4, a5, a6, a7, a8, a9, a10⟩ := hi.i i it hit
   have hcl : 1 ≤ s.failed + (sumT failC s.thr : Nat) := by omega
   have hfn := hi.e.fnn
@@ -148,18 +151,25 @@ theorem early_failure' {s : St} (hi : Inv s) {i : Nat} {it : Item} (hit : s.item
   by_cases hf : 1 ≤ s.failed
   · by_cases hn : s.nErr = 1
     · exact .inl hn
-    · right
+    · right; left
       obtain ⟨t, ht, h1⟩ := exists_of_sumT_pos sendEC s.thr (by omega)
       refine ⟨t, ht, ?_⟩
       rw [sendEC_eq] at h1
-      unfold signalling
+      unfold sending
       cases hs : t.st <;> simp [hs] at h1 ⊢
-  · right
+  · right; right
+    refine ⟨by omega, ?_⟩
     obtain ⟨t, ht, h1⟩ := exists_of_sumT_pos failC s.thr (by omega)
     refine ⟨t, ht, ?_⟩
     rw [failC_eq] at h1
-    unfold signalling
+    unfold claiming
     cases hs : t.st <;> simp [hs] at h1 ⊢
+
+/-- ... and the converse bookkeeping: at most one goroutine is ever `sending`, and none once the
+signal is out. -/
+theorem sending_unique' {s : St} (hi : Inv s) : s.nErr + sumT sendEC s.thr ≤ 1 := by
+  have := hi.e.cnt
+  omega
 
 /-- cleanup: at most once, and only when every goroutine has finished -/
 theorem cleanup_after_all' {s : St} (hi : Inv s) :
@@ -592,7 +602,8 @@ theorem items_ne_of_run {icount : Int} {ca : Option Nat} {gets : List GetRes} {p
 /-- an empty key list never reaches the `select`: it returns at once, after one cleanup, with the
 "no instances" error, the context's error, or `nil`. -/
 theorem empty_prepare_now (icount : Int) (ca : Option Nat) :
-    prepare icount ca [] = .error (if icount ≤ 0 then .noInstances else if cancelled ca 0 then .ctx else .emptyOk, 0) := by
+    prepare icount ca [] = .error { why := if icount ≤ 0 then .noInstances else if cancelled ca 0 then .ctx else .emptyOk,
+                                    gets := 0, cleanups := 1, calls := 0 } := by
   by_cases h1 : icount ≤ 0
   · simp [prepare, prepareWith, h1]
   · by_cases h2 : cancelled ca 0 = true
@@ -604,5 +615,236 @@ theorem empty_prepare_prefix {icount : Int} (h : 0 < icount) (ca : Option Nat) (
     preparePreFix icount ca [] = .ok { items := [], calls := [], gets := 0 } := by
   have : ¬ icount ≤ 0 := by omega
   simp [preparePreFix, prepareWith, this, keyLoop, hc, group, groupFrom]
+
+/-! ### early returns of the prefix: one cleanup, no call — at every `return` site -/
+
+theorem keyLoop_early (ca : Option Nat) : ∀ (gets : List GetRes) (i : Nat) (accI : List Item) (accS : List (List Nat))
+    (r : EarlyRet), keyLoop ca i gets accI accS = .error r → r.cleanups = 1 ∧ r.calls = 0 := by
+  intro gets
+  induction gets with
+  | nil => intro i accI accS r h; simp [keyLoop] at h
+  | cons g rest ih =>
+    intro i accI accS r h
+    simp only [keyLoop] at h
+    split at h
+    · simp at h; subst h; exact ⟨rfl, rfl⟩
+    · cases g with
+      | err => simp at h; subst h; exact ⟨rfl, rfl⟩
+      | ok addrs me => exact ih _ _ _ _ h
+
+theorem prepare_early {em : Bool} {icount : Int} {ca : Option Nat} {gets : List GetRes} {r : EarlyRet}
+    (h : prepareWith em icount ca gets = .error r) : r.cleanups = 1 ∧ r.calls = 0 := by
+  unfold prepareWith at h
+  split at h
+  · simp at h; subst h; exact ⟨rfl, rfl⟩
+  · split at h
+    · rename_i e hk; simp at h; subst h; exact keyLoop_early ca gets 0 [] [] _ hk
+    · split at h
+      · simp at h; subst h; exact ⟨rfl, rfl⟩
+      · split at h
+        · simp at h; subst h; exact ⟨rfl, rfl⟩
+        · simp at h
+
+/-- why the prefix returns early, completely: -/
+theorem prepare_early_why {icount : Int} {ca : Option Nat} {gets : List GetRes} {r : EarlyRet}
+    (h : prepare icount ca gets = .error r) :
+    (r.why = .noInstances ∧ icount ≤ 0) ∨ (r.why = .ctx ∧ ca.isSome = true) ∨ (r.why = .get ∧ GetRes.err ∈ gets) ∨
+    (r.why = .emptyOk ∧ gets = []) := by
+  have hloop : ∀ (gets : List GetRes) (i : Nat) (accI : List Item) (accS : List (List Nat)) (r : EarlyRet),
+      keyLoop ca i gets accI accS = .error r → (r.why = .ctx ∧ ca.isSome = true) ∨ (r.why = .get ∧ GetRes.err ∈ gets) := by
+    intro gets
+    induction gets with
+    | nil => intro i accI accS r h; simp [keyLoop] at h
+    | cons g rest ih =>
+      intro i accI accS r h
+      simp only [keyLoop] at h
+      split at h
+      · rename_i hc
+        simp at h; subst h
+        left; refine ⟨rfl, ?_⟩
+        cases ca with
+        | none => simp [cancelled] at hc
+        | some c => rfl
+      · cases g with
+        | err => simp at h; subst h; exact .inr ⟨rfl, by simp⟩
+        | ok addrs me =>
+          rcases ih _ _ _ _ h with h1 | h1
+          · exact .inl h1
+          · exact .inr ⟨h1.1, by simp [h1.2]⟩
+  unfold prepare prepareWith at h
+  split at h
+  · rename_i hic; simp at h; subst h; exact .inl ⟨rfl, hic⟩
+  · split at h
+    · rename_i e hk; simp at h; subst h
+      rcases hloop gets 0 [] [] _ hk with h1 | h1
+      · exact .inr (.inl h1)
+      · exact .inr (.inr (.inl h1))
+    · split at h
+      · rename_i hc
+        simp at h; subst h
+        refine .inr (.inl ⟨rfl, ?_⟩)
+        cases ca with
+        | none => simp [cancelled] at hc
+        | some c => rfl
+      · split at h
+        · rename_i he; simp at h; subst h; exact .inr (.inr (.inr ⟨rfl, he.2⟩))
+        · simp at h
+
+/-! ### every selected replica's callback is invoked at most once (exactly once when it has started) -/
+
+def started (t : Thread) : Nat := if t.st = .idle then 0 else 1
+
+theorem step_start_count {s0 s1 : St} {e : Ev} (h : step s0 e = some s1) (k : Nat) (t0 : Thread)
+    (hk : s0.thr[k]? = some t0) :
+    ∃ t1, s1.thr[k]? = some t1 ∧ t1.id = t0.id ∧ (if e = .start k then 1 else 0) + started t0 = started t1 := by
+  have hlt : k < s0.thr.length := (List.getElem?_eq_some_iff.mp hk).1
+  cases e with
+  | start k' =>
+    simp only [step] at h
+    split at h
+    · rename_i t hk'
+      split at h
+      · rename_i hs
+        simp at h; subst h
+        by_cases hkk : k' = k
+        · subst hkk
+          rw [hk] at hk'; cases hk'
+          exact ⟨_, getElem?_set_self' _ hk, rfl, by simp [started, hs]⟩
+        · have hne : Ev.start k' ≠ Ev.start k := fun h => hkk (by cases h; rfl)
+          exact ⟨t0, by simp only []; rw [getElem?_set_ne' _ hkk]; exact hk, rfl, by simp [hne]⟩
+      · simp at h
+    · simp at h
+  | ret k' =>
+    simp only [step] at h
+    split at h
+    · rename_i t hk'
+      split at h
+      · rename_i hs
+        simp at h; subst h
+        by_cases hkk : k' = k
+        · subst hkk
+          rw [hk] at hk'; cases hk'
+          refine ⟨_, getElem?_set_self' _ hk, (enter_id t0).1, ?_⟩
+          have := (good_enter s0 t0).st1
+          simp [started, hs, this]
+        · exact ⟨t0, by simp only []; rw [getElem?_set_ne' _ hkk]; exact hk, rfl, by simp⟩
+      · simp at h
+    · simp at h
+  | tick k' =>
+    simp only [step] at h
+    split at h
+    · rename_i t hk'
+      have hT := tick_sound h
+      obtain ⟨t', h1, hg⟩ := tick_good hT
+      have hst := tick_stage hT
+      by_cases hkk : k' = k
+      · subst hkk
+        rw [hk] at hk'; cases hk'
+        refine ⟨t', by rw [h1]; exact getElem?_set_self' _ hk, hg.id, ?_⟩
+        simp [started, hst.1, hg.st1]
+      · exact ⟨t0, by rw [h1, getElem?_set_ne' _ hkk]; exact hk, rfl, by simp⟩
+    · simp at h
+  | cleanup | cancel | recvDone | recvErr | recvCtx =>
+    have := (mu_step h).2 (by simp [isThreadEv])
+    exact ⟨t0, by rw [this]; exact hk, rfl, by simp⟩
+
+theorem start_count : ∀ (evs : List Ev) (s0 s : St), run s0 evs = some s → ∀ (k : Nat) (t0 : Thread),
+    s0.thr[k]? = some t0 → ∃ t, s.thr[k]? = some t ∧ t.id = t0.id ∧ evs.count (.start k) + started t0 = started t := by
+  intro evs
+  induction evs with
+  | nil => intro s0 s h k t0 hk; simp [run] at h; subst h; exact ⟨t0, hk, rfl, by simp⟩
+  | cons e rest ih =>
+    intro s0 s h k t0 hk
+    simp only [run] at h
+    cases hst : step s0 e with
+    | none => simp [hst] at h
+    | some s1 =>
+      simp only [hst] at h
+      obtain ⟨t1, h1, hid1, hc1⟩ := step_start_count hst k t0 hk
+      obtain ⟨t, h2, hid2, hc2⟩ := ih s1 s h k t1 h1
+      refine ⟨t, h2, hid2.trans hid1, ?_⟩
+      rw [List.count_cons]
+      by_cases he : e = .start k
+      · subst he; simp at hc1 ⊢; omega
+      · have : (e == Ev.start k) = false := by simp [he]
+        simp [he] at hc1; simp [this]; omega
+
+/-! ### from "all callbacks have returned" to the return, by goroutine steps alone -/
+
+theorem mu_zero_iff_fin (t : Thread) : mu t = 0 ↔ t.st = .fin := by
+  rw [mu_eq]
+  cases hs : t.st <;> simp [rk]
+
+/-- From any reachable state in which every callback has returned, some schedule consisting only of
+atomic actions of the goroutines (`tick`s) leads to a state in which all of them have finished. -/
+theorem drain {s0 : St} (h0 : WFInit s0) : ∀ (n : Nat) (s : St), Reach s0 s → sumT mu s.thr ≤ n →
+    (∀ t ∈ s.thr, t.st ≠ .idle ∧ t.st ≠ .inCall) →
+    ∃ (evs : List Ev) (s' : St), (∀ e ∈ evs, ∃ k, e = .tick k) ∧ run s evs = some s' ∧
+      (∀ t ∈ s'.thr, t.st = .fin) ∧ s'.ret = s.ret ∧ s'.ctx = s.ctx := by
+  intro n
+  induction n with
+  | zero =>
+    intro s _ hmu _
+    refine ⟨[], s, by simp, rfl, ?_, rfl, rfl⟩
+    intro t ht
+    obtain ⟨k, hk⟩ := List.mem_iff_getElem?.mp ht
+    have := sumT_ge mu s.thr k t hk
+    exact (mu_zero_iff_fin t).mp (by omega)
+  | succ n ih =>
+    intro s hr hmu hcb
+    by_cases hall : ∀ t ∈ s.thr, t.st = .fin
+    · exact ⟨[], s, by simp, rfl, hall, rfl, rfl⟩
+    · have ⟨t, ht, hnf⟩ : ∃ t ∈ s.thr, t.st ≠ .fin := by
+        apply Classical.byContradiction
+        intro hcon
+        apply hall
+        intro t ht
+        apply Classical.byContradiction
+        intro hne
+        exact hcon ⟨t, ht, hne⟩
+      obtain ⟨k, hk⟩ := List.mem_iff_getElem?.mp ht
+      have hI := inv_of_reach h0 hr
+      obtain ⟨ev, hev, hsome⟩ := no_deadlock' hI hk hnf
+      obtain ⟨s1, hs1⟩ := Option.isSome_iff_exists.mp hsome
+      have hcbt := hcb t ht
+      have hevt : ev = .tick k := by
+        rcases hev with rfl | rfl | rfl
+        · exfalso
+          simp only [step, hk] at hs1
+          split at hs1
+          · rename_i hi; exact hcbt.1 hi
+          · simp at hs1
+        · exfalso
+          simp only [step, hk] at hs1
+          split at hs1
+          · rename_i hi; exact hcbt.2 hi
+          · simp at hs1
+        · rfl
+      subst hevt
+      have hdec := (mu_step hs1).1 (by simp [isThreadEv])
+      have hr1 : Reach s0 s1 := .step s s1 _ hr hs1
+      have hcb1 : ∀ t ∈ s1.thr, t.st ≠ .idle ∧ t.st ≠ .inCall := by
+        intro x hx
+        have hT : TickR s k t s1 := by
+          simp only [step, hk] at hs1
+          exact tick_sound hs1
+        obtain ⟨t', h1, hg⟩ := tick_good hT
+        rw [h1] at hx
+        rcases List.mem_or_eq_of_mem_set hx with hin | rfl
+        · exact hcb x hin
+        · exact ⟨hg.st1, hg.st2⟩
+      have hretctx : s1.ret = s.ret ∧ s1.ctx = s.ctx := by
+        have hT : TickR s k t s1 := by
+          simp only [step, hk] at hs1
+          exact tick_sound hs1
+        cases hT <;> exact ⟨rfl, rfl⟩
+      obtain ⟨evs, s', he, hrun, hfin, hret, hctx⟩ := ih s1 hr1 (by omega) hcb1
+      refine ⟨.tick k :: evs, s', ?_, ?_, hfin, hret.trans hretctx.1, hctx.trans hretctx.2⟩
+      · intro e he'
+        simp at he'
+        rcases he' with rfl | he'
+        · exact ⟨k, rfl⟩
+        · exact he e he'
+      · simp [run, hs1, hrun]
 
 end PfC10
